@@ -353,3 +353,18 @@ M('C11', 'three-points-centre-sign', CIF, "            let cy = ((p0.x - p1.x) *
 M('C11', 'arc-length-signed', CIF, "        self.circle.ball.radius * self.angle.abs()", "        self.circle.ball.radius * self.angle", 'Arc2::length')
 M('C11', 'arc-point-at-angle-no-offset', CIF, "        self.circle.point_at_angle(self.angle0 + angle)", "        self.circle.point_at_angle(angle)", 'Arc2::point_at_angle')
 M('C11', 'segment-accepts-degenerate', 'src/geom2/line2.rs', "dist(&a, &b) < 1e-12", "dist(&a, &b) < 0.0", 'Segment2::try_new')
+
+# ---------------------------------------------------------------- C06
+PLF = 'src/geom2/polyline2.rs'
+L2F = 'src/geom2/line2.rs'
+M('C06', 'intersections-unsorted', PLF, "    results.sort_by(|a, b| a.0.partial_cmp(&b.0).unwrap());\n    results.dedup_by(|a, b| (a.0 - b.0).abs() < 1e-8);\n\n    results", "    results.dedup_by(|a, b| (a.0 - b.0).abs() < 1e-8);\n\n    results", 'sort-dedup')
+M('C06', 'intersections-no-retest', PLF, "        if let Some(t) = ray_intersect_with_edge(polyline, ray, *i as usize) {\n            results.push((t, *i as usize));\n        }", "        if let Some(t) = ray_intersect_with_edge(polyline, ray, *i as usize) {\n            results.push((t, *i as usize + 1));\n        }", 'retest')
+M('C06', 'edge-param-half-open', PLF, "        if (0.0..=1.0).contains(&t1) {", "        if (0.0..1.0).contains(&t1) {", 'ray_intersect_with_edge')
+M('C06', 'edge-returns-edge-param', PLF, "        if (0.0..=1.0).contains(&t1) {\n            Some(t0)", "        if (0.0..=1.0).contains(&t1) {\n            Some(t1)", 'ray_intersect_with_edge')
+M('C06', 'edge-tests-ray-param', PLF, "        if (0.0..=1.0).contains(&t1) {", "        if (0.0..=1.0).contains(&t0) {", 'ray_intersect_with_edge')
+M('C06', 'param-sign-slip', L2F, "    Some(((dy * bd.x - dx * bd.y) / det, (dy * ad.x - dx * ad.y) / det))", "    Some(((dy * bd.x - dx * bd.y) / det, (dx * ad.y - dy * ad.x) / det))", 'intersection_param:identity')
+M('C06', 'param-parallel-unchecked', L2F, "    if det.abs() < 1e-12 {\n        return None;\n    }\n\n    let dx", "    if det.abs() < 0.0 {\n        return None;\n    }\n\n    let dx", 'intersection_param:parallel')
+M('C06', 'spanning-needs-at-least-two', PLF, "    if results.len() == 2 {", "    if results.len() >= 2 {", 'spanning_ray')
+M('C06', 'spanning-reversed', PLF, "            ray.point_at(results[0].0),\n            ray.point_at(results[1].0),", "            ray.point_at(results[1].0),\n            ray.point_at(results[0].0),", 'spanning_ray')
+M('C06', 'cast-ray-positive-only', PLF, "    let mut tmin = SimdReal::splat(f64::MIN);", "    let mut tmin = SimdReal::splat(0.0);", 'cast_ray:admits-negative')
+M('C06', 'visitor-collects-all', PLF, "                if mask.extract(i) {\n                    if let Some(d) = d_opt {\n                        self.collector.push(*d);\n                    }\n                }", "                if let Some(d) = d_opt {\n                    self.collector.push(*d);\n                }", 'RayVisitor::visit:collect', kind='mutant')
